@@ -264,7 +264,10 @@ impl Universe {
         let r3 = msg(13, 888, vec![], 3);
         let r4 = msg(14, 999, vec![], 2);
         let m4 = msg(4, 3000, vec![0xEE; 4], 0);
-        let genesis_msgs = vec![m1.clone(), m2.clone(), m3.clone(), m4.clone()];
+        // messages owned by the predicate: a coin message and a retryable data message
+        let m5: Message = MessageV1 { sender, recipient: pred_owner, nonce: nonce(5), amount: 5_000_000, data: vec![], da_height: DaBlockHeight(0) }.into();
+        let m6: Message = MessageV1 { sender, recipient: pred_owner, nonce: nonce(6), amount: 3000, data: vec![0xD6; 4], da_height: DaBlockHeight(0) }.into();
+        let genesis_msgs = vec![m1.clone(), m2.clone(), m3.clone(), m4.clone(), m5.clone(), m6.clone()];
 
         // ---- bulk transfers ----------------------------------------------------
         let mut bulk: Vec<Transaction> = Vec::with_capacity(bulk_n);
@@ -545,6 +548,56 @@ impl Universe {
                 b.add_unsigned_coin_input(ska, gid(slot), COIN, base, z).add_output(Output::change(addr_a, 0, base));
                 push(name, b.finalize_as_transaction());
             }
+        }
+
+        // 33, 34 predicate-owned message coin: funding a reverting script / spent by a succeeding one
+        for (name, code) in [("predmsg_rvrt", bytes(vec![op::rvrt(RegId::ONE)])), ("predmsg_ok", vec![])] {
+            let mut b = script(code, vec![]);
+            b.add_input(Input::message_coin_predicate(sender, pred_owner, 5_000_000, nonce(5), 0, predicate.clone(), vec![]))
+                .add_output(Output::change(addr_b, 0, base));
+            let mut tx = b.finalize();
+            tx.estimate_predicates(&(&cp).into(), MemoryInstance::new(), &EmptyStorage).expect("predicate estimation");
+            push(name, tx.into());
+        }
+        // 35, 36 predicate-owned retryable data message with a reverting / succeeding script (fees from a coin of A)
+        for (name, code, slot) in [("preddata_rvrt", bytes(vec![op::rvrt(RegId::ONE)]), 36u8), ("preddata_ok", vec![], 39u8)] {
+            let mut b = script(code, vec![]);
+            b.add_input(Input::message_data_predicate(sender, pred_owner, 3000, nonce(6), 0, vec![0xD6; 4], predicate.clone(), vec![]))
+                .add_unsigned_coin_input(ska, gid(slot), COIN, base, z)
+                .add_output(Output::change(addr_a, 0, base));
+            let mut tx = b.finalize();
+            tx.estimate_predicates(&(&cp).into(), MemoryInstance::new(), &EmptyStorage).expect("predicate estimation");
+            push(name, tx.into());
+        }
+        // 37 reverting script without any output: with UTXO validation off nothing but the processed-id
+        // record stops it from being executed again
+        {
+            let mut b = script(bytes(vec![op::rvrt(RegId::ONE)]), vec![]);
+            b.add_unsigned_coin_input(ska, gid(37), COIN, base, z);
+            push("rvrt_noout", b.finalize_as_transaction());
+        }
+        // 38 spends a message coin that does not exist (with UTXO validation off this is only noticed
+        // after the VM ran, when the inputs are spent)
+        {
+            let mut b = script(vec![], vec![]);
+            b.add_unsigned_message_input(ska, sender, nonce(99), 2_000_000, vec![]).add_output(Output::change(addr_a, 0, base));
+            push("msg_missing", b.finalize_as_transaction());
+        }
+        // 39 consensus-parameters upgrade to a stricter version: at most one input per transaction
+        {
+            use fuel_core_types::{fuel_crypto::Hasher, fuel_tx::UpgradePurpose};
+            let mut next = cp.clone();
+            next.set_tx_params(cp.tx_params().with_max_inputs(1));
+            let serialized: Vec<u8> = {
+                use fuel_core_storage::codec::{postcard::Postcard, Encode, Encoder};
+                <Postcard as Encode<ConsensusParameters>>::encode(&next).as_bytes().into_owned()
+            };
+            let checksum = Hasher::hash(&serialized);
+            let mut b = TransactionBuilder::upgrade(UpgradePurpose::ConsensusParameters { witness_index: 0, checksum });
+            b.with_params(cp.clone()).max_fee_limit(MAX_FEE);
+            b.add_witness(Witness::from(serialized));
+            b.add_unsigned_coin_input(ska, gid(38), COIN, base, z).add_output(Output::change(addr_a, 0, base));
+            push("upgrade_strict", b.finalize_as_transaction());
         }
 
         // ---- forced transactions and relayer script ---------------------------
